@@ -18,6 +18,14 @@ Theorem C12_exactly_once_fifo : forall sched,
 Proof. exact fifo_accounting. Qed.
 Print Assumptions C12_exactly_once_fifo.
 
+(* ... so at any moment of any schedule the commands answered so far are a prefix of the commands
+   enqueued so far, in their order: no answer to a command nobody asked, none twice, none
+   overtaking an earlier command *)
+Theorem C12_answered_is_prefix : forall sched,
+  exists rest, enq_cmds sched = map fst (s_out (run sched)) ++ rest.
+Proof. exact answered_is_prefix. Qed.
+Print Assumptions C12_answered_is_prefix.
+
 (* From every reachable state all enqueued commands get their value by moves of the code
    itself (SendFunc returning, time-outs, clean-ups), without a single reply, in at most
    [measure] steps; afterwards the callbacks have received exactly the enqueued commands. *)
